@@ -63,6 +63,45 @@ func runC14(r *run) {
 			emit(caseT{"variants", w.args(src, g.context(i%2))})
 			emit(caseT{"render", w.args(plain, g.context(i%2))}) // the same program without the failing function: model correspondence
 		}
+		// output pieces of every size around the usual buffer sizes, written by one node
+		// (a text, an include, an ifchanged body, a macro result) after a short start
+		for k, size := range []int{1, 63, 64, 255, 256, 511, 512, 513, 1023, 1024, 4095, 4096, 4097, 9000, 70000} {
+			row := "<li>row</li>\n"
+			var sb strings.Builder
+			for sb.Len() < size {
+				sb.WriteString(row)
+			}
+			big := sb.String()[:size]
+			files := map[string]string{"big.tpl": big, "bigv.tpl": "{% for q in nums %}" + big + "{% endfor %}"}
+			for j, src := range []string{
+				"<h1>{{ s1 }}</h1>{% include \"big.tpl\" %}<footer>{{ tick() }}",
+				"<h1>{{ s1 }}</h1>{% for c in lst %}{% ifchanged %}" + big + "{{ c }}{% endifchanged %}{% endfor %}<footer>{{ tick() }}",
+				"x{% include \"bigv.tpl\" %}{{ tick() }}y{% include \"big.tpl\" %}{{ tick() }}",
+				"{% macro mb() %}" + big + "{% endmacro %}a{{ mb() }}b{{ tick() }}{{ mb() }}",
+				"a" + big + "{{ tick() }}b",
+				"{% set nm = \"big.tpl\" %}h{% include nm %}t{{ tick() }}",
+			} {
+				g := newProgGen(rg.fork(uint64(90000 + k*10 + j)))
+				emit(caseT{"variants", (&world{files: []map[string]string{files}}).args(src, g.context(0))})
+			}
+		}
+		// a content-mode ifchanged inside another one, over every sequence of three pairs
+		vals := []string{"", "q", "r", "qr", "zz"}
+		nseq := 0
+		for a := 0; a < 25 && nseq < 4000; a++ {
+			for b := 0; b < 25; b++ {
+				for c3 := 0; c3 < 25; c3 += 3 {
+					mk := func(i int) *gval {
+						return gMap([]string{"a", "b"}, []*gval{gStr(vals[i/5]), gStr(vals[i%5])})
+					}
+					ctx := gctx{{"items", gList(mk(a), mk(b), mk(c3))}}
+					src := "{% for p in items %}{% ifchanged %}{{ p.a }}{% ifchanged %}{{ p.b }}{% endifchanged %}{% endifchanged %}{% endfor %}{{ tick() }}"
+					emit(caseT{"variants", (&world{}).args(src, ctx)})
+					emit(caseT{"render", (&world{}).args(strings.TrimSuffix(src, "{{ tick() }}"), ctx)})
+					nseq++
+				}
+			}
+		}
 	}
 	driveCases(r, gen, execC14)
 	r.finish(nil)
